@@ -363,7 +363,7 @@ func c08FuncBatch(r *fw.Rec, shapes []string, base int) {
 		}
 		// the numbers are also used from outside: a table of the addresses of the
 		// unnamed non-entry blocks before the functions (LLVM takes the address of
-		// a numeric label only before the function is defined) 
+		// a numeric label only before the function is defined)
 		var basNum, basNamed []string
 		for _, fnn := range fns {
 			first := true
